@@ -419,6 +419,8 @@ class CallMixin:
         # the callee's declared parameter types must admit the actual tags
         for name, alts in c.params.items():
             if name in bound and not self.tag_ok(bound[name], alts):
+                if self.infeasible(p):
+                    return []  # dead path (e.g. behind an isinstance guard that already raised)
                 raise Unsupported(f"argument {name} of {short} has tag {bound[name].tag}/{bound[name].cls}, contract admits {alts} (line {line})")
         a = Args(bound)
         h0 = p.heap
@@ -481,6 +483,13 @@ class CallMixin:
             return T0
         return None
 
+    def infeasible(self, p: Path) -> bool:
+        from . import solve
+
+        sol = solve.make_solver(p.conds, z3.BoolVal(False))
+        sol.set("rlimit", 3000000)
+        return sol.check() == z3.unsat
+
     def tag_ok(self, v: SV, alts) -> bool:
         for t in alts:
             if t == "any":
@@ -497,7 +506,7 @@ class CallMixin:
                 return True
             if t == "false" and v.tag == "bool" and z3.is_false(v.z):
                 return True
-            if t == "kind" and v.tag in ("val", "str"):
+            if t in ("kind", "id") and v.tag in ("val", "str", "int"):
                 return True
             if t == "data" and v.tag in ("val", "str", "int", "bool"):
                 return True
@@ -560,7 +569,7 @@ class CallMixin:
             else:
                 zs.append(("v", z3.Const("opaque_arg", L.Val)))
         key = "".join(k for k, _ in zs)
-        orc = z3.Function(f"oracle_{key}", *([L.Val] + [L.Ref if k == "r" else L.Val for k, _ in zs] + [L.Val]))
+        orc = L.oracle_fn(key)
         res = orc(fz, *[z for _, z in zs])
         p.ghost.setdefault("cb_calls", []).append((fz, [z for _, z in zs], node.lineno))
         bad = p.fork()
